@@ -335,6 +335,18 @@ class SpecEval:
                     if len(objs) == len(classes) and all(isinstance(o, type) for o in objs):
                         return mkB(TRUE if issubclass(raw.cls, tuple(objs)) else FALSE)
                 v = self.ev(n.args[0])
+                cn = n.args[1]
+                cnodes = [cn] if not isinstance(cn, ast.Tuple) else cn.elts
+                import builtins as _b
+                objs = []
+                for xn in cnodes:
+                    o = None
+                    if isinstance(xn, ast.Name):
+                        o = self.e.spec_names.get(xn.id) or ({"NoneType": type(None)}.get(xn.id)) or getattr(_b, xn.id, None)
+                    objs.append(o)
+                if all(isinstance(o, type) for o in objs):
+                    from .terms import isinstance_any_term
+                    return mkB(isinstance_any_term(asV(v), objs, self.e.ctab))
                 c = self.ev(n.args[1])
                 return mkB(f"(py_isinstance {asV(v)} {asV(c)})")
             if f == "is_obj":
